@@ -22,8 +22,8 @@ pub fn basic_ops() -> Vec<Op> {
         Input(0, 2, 3, s("=SUM(A1:A3)")),
         Input(0, 3, 3, s("=Sheet2!A1*2")),
         Input(0, 1, 4, s("abc")),
-        Input(0, 1, 5, s("=SEQUENCE(2)")),
-        ArrayFormula(0, 1, 6, 1, 2, s("={1;2}*A1")),
+        Input(0, 6, 5, s("=SEQUENCE(2)")),
+        ArrayFormula(0, 6, 6, 1, 2, s("={1;2}*A1")),
         Input(1, 1, 1, s("10")),
         Input(1, 2, 1, s("=Sheet1!A1+A1")),
         NewName(s("nm"), None, s("Sheet1!$A$1")),
@@ -123,7 +123,7 @@ pub fn alphabet_core() -> Vec<Op> {
         ArrayFormula(0, 3, 4, 2, 1, s("=A1:B1*2")),
         ClearContents(0, 1, 1, 2, 2),
         ClearAll(0, 1, 1, 3, 3),
-        ClearAll(0, 2, 1, 1, 16_384),
+        ClearAll(0, 2, 1, 1, 30),
         ClearFormatting(0, 1, 1, 5, 7),
         Style(0, 1, 1, 2, 2, s("font.b"), s("true")),
         Style(0, 2, 1, 1, 1, s("num_fmt"), s("0.0")),
@@ -165,14 +165,14 @@ pub fn alphabet_full() -> Vec<Op> {
         Input(0, 2, 2, s("http://a.b")),
         Input(0, 2, 4, s("=A2#")),
         Input(0, 4, 2, s("=nm")),
-        Input(0, 1, 6, s("=E1#*2")),
+        Input(0, 4, 6, s("=E6#*2")),
         Input(1, 2, 2, s("7")),
         Input(0, 5, 5, s("1e3")),
         Input(0, 3, 1, s("1,000.5")),
         Input(0, 1, 3, s("=1/0")),
         ArrayFormula(0, 4, 1, 1, 2, s("=SUM(A1:A2)")),
         ClearContents(0, 1, 5, 1, 1),
-        ClearContents(0, 1, 3, 1_048_576, 1),
+        ClearContents(0, 1, 3, 40, 1),
         ClearAll(1, 1, 1, 2, 1),
         ClearFormatting(0, 1, 7, 1_048_576, 1),
         ClearFormatting(0, 5, 1, 1, 16_384),
